@@ -1475,6 +1475,14 @@ class MFns:
         return self.conv_type(ty, ctx.what, decl.impl), fallible, False
 
     def translate_m(self, key):
+        """(see `_translate_m`) a failure inside does not leave the function marked as being translated"""
+        try:
+            return self._translate_m(key)
+        except ShapeError:
+            self.m_in_progress.discard(key)
+            raise
+
+    def _translate_m(self, key):
         if key in self.mdone:
             return self.mdone[key]
         if key not in self.items.fns:
